@@ -30,7 +30,18 @@ impl Gen {
         let k = if self.no_send.contains(&m) { 50 } else { k };
         let pending: Vec<(usize, u64)> = (0..self.n).filter_map(|c| w.pending_of(c).map(|e| (c, e))).collect();
         if k < 14 && !pending.iter().any(|(c, _)| *c == m) {
-            let is_admin = self.admin_mask & (1 << m) != 0;
+            let is_admin = w.is_admin_now(m);
+            // an admin grants or revokes admin rights (no leave proposals are generated afterwards: the engine model's own
+            // admin flag is static and only matters for the auto-commit of leave proposals)
+            if is_admin && self.n > 2 && self.r.chance(1, 7) {
+                let j = (m + 1 + self.r.below(self.n as u64 - 1) as usize) % self.n;
+                if w.clients[j].keys.public_key() != w.clients[m].keys.public_key() {
+                    let grant = !w.is_admin_now(j);
+                    let ev = self.next_ev; self.next_ev += 1; self.left = Some(99);
+                    self.evs.insert(ev, EvMeta { kind: "commit", author: m, epoch_hint: self.client_epoch[m] });
+                    return format!("PR COMMIT {m} {}{j} {ev} {}", if grant { "ad" } else { "un" }, self.ts());
+                }
+            }
             // an admin removes another user (all of its devices) through MDK::remove_members
             if is_admin && !self.removed && self.n > 3 && self.r.chance(1, 5) {
                 let same = |a: usize, b: usize| a == b || (self.twin && a >= 2 && b >= 2);
@@ -60,7 +71,7 @@ impl Gen {
             self.evs.insert(ev, EvMeta { kind: "prop", author: m, epoch_hint: self.client_epoch[m] });
             return format!("PR LEAVE {m} {ev} {}", self.ts());
         }
-        if k < 29 && self.adv < 3 && self.admin_mask & (1 << m) == 0 && w.pending_of(m).is_none() && self.r.chance(2, 3) {
+        if k < 29 && self.adv < 3 && !w.is_admin_now(m) && w.pending_of(m).is_none() && self.r.chance(2, 3) {
             // a non-admin builds a member-removing commit directly with the MLS library
             let victim = (m + 1 + self.r.below(self.n as u64 - 1) as usize) % self.n;
             let ev = self.next_ev; self.next_ev += 1; self.adv += 1;
@@ -177,6 +188,7 @@ fn run_world<S: MdkStorageProvider, F: Fn(usize) -> S>(run: &mut Run, lines_in: 
         world_no.set(1000 + h);
         let removal_script = h % 5 == 2;
         let reuse_script = h % 5 == 0;
+        let admin_rb_script = h % 5 == 3;
         let n = if removal_script || reuse_script { 4 } else { 3 + r.below(2) as usize };
         let spare = if reuse_script { 1 } else { 0 };
         let mut admin_mask = 1 | (r.below(1 << n) & !1) ;
@@ -184,6 +196,7 @@ fn run_world<S: MdkStorageProvider, F: Fn(usize) -> S>(run: &mut Run, lines_in: 
         // one history in three of the four-member worlds has a two-device user (clients 2 and 3 share one identity)
         let twin = n == 4 && !reuse_script && (removal_script || r.chance(1, 3));
         if reuse_script { admin_mask &= !0b10; }
+        if admin_rb_script { admin_mask &= !0b100; }
         if twin { admin_mask = (admin_mask & !0b1000) | ((admin_mask & 0b100) << 1); }
         let mut g = Gen { r: r.fork(), n, admin_mask, next_ev: 0, next_msg: 1, evs: BTreeMap::new(),
                           regime_causal: h % 3 != 2, immediate: h % 4 == 3, client_epoch: vec![1; n], delivered: BTreeSet::new(), left: None, adv: 0, twin, removed: false, no_send: BTreeSet::new() };
@@ -239,6 +252,23 @@ fn run_world<S: MdkStorageProvider, F: Fn(usize) -> S>(run: &mut Run, lines_in: 
             script.push(format!("PR JOIN 4 {}", base + 3));
             for (c, e) in [(2usize, base), (2, base + 1), (3, base), (4, base), (4, base + 1)] { script.push(format!("PR DELIVER {c} {e}")); }
             for e in base..base + 4 { g.delivered.insert(e); }
+            script.reverse();
+        }
+        // residue 3: an authorised admin-set change is applied by member 1 and then rolled back by an earlier-stamped commit that
+        // is itself refused (member 2, not an admin, builds it with the MLS library): the stored record must follow the MLS state
+        // back (admins included)
+        if admin_rb_script && !twin {
+            let (e1, e2) = (g.next_ev, g.next_ev + 1); g.next_ev += 2;
+            g.evs.insert(e1, EvMeta { kind: "commit", author: 0, epoch_hint: 1 });
+            g.evs.insert(e2, EvMeta { kind: "commit", author: 2, epoch_hint: 1 });
+            g.left = Some(99); g.adv += 1;
+            script.push(format!("PR COMMIT 0 {}1 {e1} 105", if admin_mask & 0b10 != 0 { "un" } else { "ad" }));
+            script.push(format!("PR ADV 2 rm 1 {e2} 100"));
+            script.push(format!("PR DELIVER 1 {e1}"));
+            script.push(format!("PR DELIVER 1 {e2}"));
+            script.push(format!("PR DELIVER 0 {e1}"));
+            script.push(format!("PR DELIVER 2 {e1}"));
+            g.delivered.insert(e1); g.delivered.insert(e2);
             script.reverse();
         }
         // persistent backends, residue 1: a client is restarted with a SMALLER snapshot retention after several commits; the very
@@ -344,7 +374,7 @@ fn step<S: MdkStorageProvider>(w: &mut World<S>, l: &str, truth: &mut Truth, run
     let name_before = if t[1] == "DELIVER" { w.clients[m].mdk.get_group(&w.gid).ok().flatten().map(|g| format!("{} admins={:?}", g.name, g.admin_pubkeys.iter().filter_map(|pk| w.clients.iter().position(|x| x.keys.public_key() == *pk)).collect::<BTreeSet<_>>())).unwrap_or_default() } else { String::new() };
     let rb_before = if t[1] == "DELIVER" { w.clients[m].cb.0.lock().unwrap().len() } else { 0 };
     let leave_to_pending_admin = t[1] == "DELIVER" && w.events.get(&t[3].parse().unwrap()).map(|i| i.kind == "prop").unwrap_or(false)
-        && w.admin_mask & (1 << m) != 0 && w.pending_of(m).is_some();
+        && w.is_admin_now(m) && w.pending_of(m).is_some();
     let (line, fp) = w.exec(l);
     if t[1] == "DELIVER" { truth.offered[m].insert(t[3].parse().unwrap()); }
     if let Some(b) = before_restart { if fp != "skip" {
@@ -442,6 +472,14 @@ fn step<S: MdkStorageProvider>(w: &mut World<S>, l: &str, truth: &mut Truth, run
         } }
     }
     if t[1] == "DELIVER" && fp.starts_with("res=Commit") { *truth.commits_since_restart.entry(m).or_insert(0) += 1; }
+    // C08: ... and the admin set of the MLS group data
+    if fp.contains(" act=1 ") && m < w.clients.len() {
+        if let (Ok(Some(rec)), Ok(Some(g))) = (w.clients[m].mdk.get_group(&w.gid), w.clients[m].mdk.load_mls_group(&w.gid)) {
+            if let Ok(d) = mdk_core::extension::NostrGroupDataExtension::from_group(&g) { if g.is_active() && rec.admin_pubkeys != d.admins {
+                run.oracle_fail("C08", "", format!("[{backend}] after `{l}` member {m}'s stored admin set differs from the admin set of its MLS group data"), seq.join(" || ") + " || " + &line);
+            } }
+        }
+    }
     // C08: after every operation the stored record of an active group shows the epoch of the MLS state
     if fp.contains(" act=1 ") {
         let get = |k: &str| fp.split(k).nth(1).and_then(|x| x.split(' ').next()).and_then(|x| x.parse::<u64>().ok());
